@@ -39,22 +39,22 @@ register("C16", ["c16", "hazards"],
          ["tokio watch::send_modify runs the closure under the watch lock"],
          TRUSTED)
 
-register("C12", ["c12", "hazards"],
+register("C12", ["c12", "sigchain_node", "hazards"],
          "Static guard tables, term checks, dominance and who-may-call facts: the four handshake functions are enumerated over genesis/session/signature/(peer) atoms and Ok must be reachable in exactly the all-true row; the session id compared and signed is SessionId(encode(id(<the stream parameter>))) and Stream.id is the noise handshake hash; the identity returned is the key of the very signature that verified; in the four stream runners insert is dominated by handshake success, serving and remove are dominated by insert success, remove post-dominates on normal completion with the same key; the pool's insert/remove closures are enumerated as tables; pool construction terms and the callers of rpc::Service::run are exact sets. Unforgeability of signatures and secrecy of the noise session are cryptographic assumptions.",
          ["ed25519/BLS signature unforgeability and the noise handshake hash binding (snow) hold", "tokio watch runs the guarded closures under its lock"],
          TRUSTED)
 
-register("C04", ["c04", "hazards"],
+register("C04", ["c04", "sigchain", "hazards"],
          "Static conjunctive guard tables on the verification code itself: for CommitQC::verify, TimeoutQC::verify (per loop iteration and after the loop), CommitQC::add / TimeoutQC::add (sibling rule), FinalBlock::verify and View::verify each check is an atom and the accepting site (signature check whose result is returned, union update, bit/signature mutation, Ok) must be reachable only on the all-checks-passed row; operands are compared as terms (weight of the certificate's own signers vs the same schedule's quorum threshold; keys derived from the same signer bitmap); type-directed obligations generated from the ADTs require every nested vote/certificate field to be verified; in the four bft handlers every state change is dominated by both verifications. Decides the soundness direction ('accepted only if ...') structurally; the completeness direction and the cryptography are not claimed.",
          ["BLS aggregate signature verification (blst) is sound", "Signers::weight sums exactly the set bits' weights (checked as C10 guard obligation)"],
          TRUSTED)
 
-register("C18", ["c18", "hazards"],
+register("C18", ["c18", "sigchain", "hazards"],
          "Static guard table of ValidatorAddrs::update over every batch entry (duplicate / member / stored / newer / signature atoms; 32 valuations) deciding when an entry is stored, verified, skipped or fails the batch; the all-or-nothing publish is decided structurally (the batch is applied to a local produced by Clone::clone, send_replace is dominated by the batch's success and runs only on Ok(true), no other caller applies a batch); is_newer is compared as a term with the strict lexicographic (version, timestamp) order; exact writer set of the address map; the RPC handler passes the current epoch's schedule. Convergence across nodes follows from the total order and is not computed.",
          ["validator signature unforgeability", "tokio watch lock serialises updates"],
          TRUSTED)
 
-register("C02", ["c02", "c02x", "c04", "hazards"],
+register("C02", ["c02", "c02x", "c04", "sigchain", "hazards"],
          "Static decision tables and ingredient terms of the re-proposal rule: get_implied_block is enumerated over (justification kind, high vote, high QC, number order) and each outcome site is classified by its return terms; TimeoutQC::high_vote is checked for what it tallies (key = the voted BlockHeader, quantity = Signers::weight, only entries with a vote), the qualifying comparison (>= subquorum_threshold) and uniqueness (exactly one); high_qc is compared with max-by-view over the entries' high QCs; the replica's payload table (vote only for the implied hash, or for a fresh payload after verify_payload succeeded) and the proposer's table are enumerated; certificate verification obligations are imported from C04. The combinatorial safety argument (2f < n-3f) rests on C07 and the hand lemma; multi-view histories are not explored.",
          ["the C07 lemma", "certificates inside accepted messages were verified (C04 rules run with this property)"],
          TRUSTED)
@@ -69,7 +69,7 @@ register("C14", ["c14", "hazards"],
          ["tokio semaphores/channels behave as documented", "ExclusiveLock hands the half back only when the previous Stream is dropped"],
          TRUSTED)
 
-register("C01", ["c01", "c02", "c03", "phase_gate", "c04", "c07", "c08", "hazards"],
+register("C01", ["c01", "c02", "c03", "phase_gate", "c04", "sigchain", "c07", "c08", "hazards"],
          "Agreement itself (a statement over all schedules, Byzantine behaviours and crash points) is NOT decided by static analysis. This check decides that the four anchored safety mechanisms are intact and wired together on the current MIR: certificate provenance at every adoption site, the commit path (only adopted certificates finalize, block = certificate + hash-keyed cached payload, stored through the verifying engine manager), the vote being for the implied block, plus the imported rule sets: one vote per view and persist-before-send (C03), re-proposal rule (C02), certificate verification (C04), threshold arithmetic (C07), verified append-only store (C08). Breaking any of these breaks agreement; satisfying all of them does not prove it.",
          ["the ChonkyBFT safety argument for the combination of the mechanisms (spec/)", "C07 lemma"],
          TRUSTED)
